@@ -605,7 +605,9 @@ class sptensor:
             if self.subs.size == 0:  # no stored entries
                 return 0.0
             tfidx = self.subs[:, 0] == self.subs[:, 1]  # find diagonal entries
-            return sum(self.vals[tfidx].transpose()[0])
+            # (numpy's reducer: values of a narrow integer type are summed without
+            # wrap-around, as in the dense class and in the branch below)
+            return np.sum(self.vals[tfidx].transpose()[0])
 
         # Remaining dimensions after contract
         remdims = np.setdiff1d(np.arange(0, self.ndims), np.array([i_0, i_1])).astype(
